@@ -3,7 +3,7 @@ import ast
 import re
 
 from ..core import AnalysisError, norm
-from .common import (effects, paths_of, check_writers, arg_by_name, named_call_sites, ctor_sites)
+from .common import (effects, paths_of, check_writers, arg_by_name, named_call_sites, ctor_sites, scope_nodes)
 
 TRUSTED = ['CPython ast', 'engine /verif/sa', 'frozen libwayland facts: signature codes iufsonah, union wl_argument members, struct field roles, '
            'wl_fixed_to_double formula, breakpoint function names (libwayland 1.18-1.23)']
@@ -37,29 +37,36 @@ def _branch_codes(test):
     return None
 
 
-def run(ctx):
-    repo = ctx.repo
-    ctx.decided = ['C09.1 cursor integrity', 'C09.2 code table agreement', 'C09.3 kind table agrees with log mode', 'C09.4 direction and struct-field roles',
-                   'C09.5 time unit (see C16.1)']
-    ctx.undecided = ["what GDB's expression evaluator returns for the fixed-point formula (only the formula text is compared)", 'the true element type of an array (libwayland does not record it; int is assumed, consistently)']
-    ctx.assumptions = ['nothing of GDB mode can be executed in this sandbox; all facts about libwayland are frozen tables']
-    f = repo.func('extract.extract_message')
+class _Shape(Exception):
+    pass
+
+
+def _table_keys(repo, mod, name):
+    tc = repo.lookup(mod, name)
+    keys = None
+    if tc and tc[0] == 'var' and tc[1] is not None:
+        v = tc[1]
+        if isinstance(v, ast.DictComp) and isinstance(v.generators[0].iter, (ast.List, ast.Tuple)):
+            keys = {e.value for e in v.generators[0].iter.elts if isinstance(e, ast.Constant)}
+        elif isinstance(v, ast.Dict):
+            keys = {k.value for k in v.keys if isinstance(k, ast.Constant)}
+        elif isinstance(v, (ast.Set, ast.List, ast.Tuple)):
+            keys = {e.value for e in v.elts if isinstance(e, ast.Constant)}
+        elif isinstance(v, ast.Constant) and isinstance(v.value, str):
+            keys = set(v.value)
+    return keys
+
+
+def _ast_rules(ctx, repo, f):
+    """Rules on the statement structure of the standard form (one loop over the signature whose body is one
+    `if <c> in <type codes>` block with an if/elif chain over the codes).  Raises _Shape when extract_message is written
+    differently: the path-level rules below then decide alone."""
     site = f.loc()
-    # the loop over the signature and the code guard
     loops = [n for n in f.node.body if isinstance(n, ast.For)]
-    if len(loops) != 1:
-        raise AnalysisError('C09: expected one top-level loop over the signature in extract_message')
+    if len(loops) != 1 or not isinstance(loops[0].target, ast.Name):
+        raise _Shape('not one top-level `for <name> in <signature>` loop')
     loop = loops[0]
-    if not isinstance(loop.target, ast.Name):
-        raise AnalysisError('C09: signature loop target is not a name')
     cvar = loop.target.id
-    sig_src = None
-    for n in f.node.body:
-        if isinstance(n, ast.Assign) and isinstance(n.targets[0], ast.Name) and norm(n.targets[0]) == norm(loop.iter):
-            sig_src = norm(n.value)
-    ctx.check(sig_src is not None and "'wl_message.signature'" in sig_src and sig_src.endswith('.string()'), 'C09.4', 'role:signature', f.loc(loop),
-              'the loop runs over the closure message\'s signature string', 'the loop runs over %s' % sig_src)
-    guards = [s for s in loop.body if isinstance(s, ast.If)]
     guard = None
     for s in loop.body:
         if isinstance(s, ast.If) and isinstance(s.test, ast.Compare) and isinstance(s.test.ops[0], ast.In) and norm(s.test.left) == cvar \
@@ -75,25 +82,10 @@ def run(ctx):
         guard.col_offset = g0.col_offset
         body_ = [guard]
     if guard is None or len(body_) != 1:
-        ctx.violation('C09.1', 'guard:shape', f.loc(loop), 'the signature loop no longer consists of one `if <c> in <type codes>` block: version digits/`?` may advance the cursor')
-        return 'C09: structure lost'
-    ctx.check(not guard.orelse, 'C09.1', 'guard:no-else', f.loc(guard), 'characters that are not type codes (version digits, ?) do nothing')
-
+        raise _Shape('the loop body is not one `if <c> in <type codes>` block')
     # ---- C09.2 code table ------------------------------------------------------------------------------------
-    tc = repo.lookup(f.module, norm(guard.test.comparators[0]))
-    keys = None
-    if tc and tc[0] == 'var' and tc[1] is not None:
-        v = tc[1]
-        if isinstance(v, ast.DictComp) and isinstance(v.generators[0].iter, (ast.List, ast.Tuple)):
-            keys = {e.value for e in v.generators[0].iter.elts if isinstance(e, ast.Constant)}
-        elif isinstance(v, ast.Dict):
-            keys = {k.value for k in v.keys if isinstance(k, ast.Constant)}
-        elif isinstance(v, (ast.Set, ast.List, ast.Tuple)):
-            keys = {e.value for e in v.elts if isinstance(e, ast.Constant)}
-        elif isinstance(v, ast.Constant) and isinstance(v.value, str):
-            keys = set(v.value)
+    keys = _table_keys(repo, f.module, norm(guard.test.comparators[0]))
     ctx.check(keys == CODES, 'C09.2', 'type_codes:set', site, 'the type-code table is exactly libwayland\'s {i,u,f,s,o,n,a,h}', 'the type-code table is %s' % (sorted(keys) if keys else keys))
-    # branch chain
     chain = []
     node = None
     for s in guard.body:
@@ -110,6 +102,8 @@ def run(ctx):
         else:
             chain.append((None, node.orelse, node))
             node = None
+    if not chain:
+        raise _Shape('no if/elif chain over the type codes')
     covered = set()
     for codes, body, n in chain:
         if codes:
@@ -118,78 +112,134 @@ def run(ctx):
               'branches cover %s, table is %s' % (sorted(covered), sorted(CODES)))
     els = [b for c, b, n in chain if c is None]
     ctx.check(all(any(isinstance(s, ast.Raise) for s in b) or not b for b in els), 'C09.2', 'branches:else-raises', site, 'an unexpected code is an error, not silently skipped')
-
-    # ---- C09.1 cursor -------------------------------------------------------------------------------------------
-    # the cursor is the name that indexes the closure's argument array
+    # ---- C09.1 name capture of the cursor (D5) ---------------------------------------------------------------------
     args_name = None
-    types_name = None
     for n in f.node.body:
-        if isinstance(n, ast.Assign) and isinstance(n.targets[0], ast.Name):
-            t = norm(n.value)
-            if "'wl_closure.args'" in t:
-                args_name = n.targets[0].id
-            if "'wl_message.types'" in t:
-                types_name = n.targets[0].id
-    if args_name is None or types_name is None:
-        raise AnalysisError('C09: closure args / message types are not read via the struct-field table any more')
+        if isinstance(n, ast.Assign) and isinstance(n.targets[0], ast.Name) and "'wl_closure.args'" in norm(n.value):
+            args_name = n.targets[0].id
     cursors = set()
-    uses = []
     for n in ast.walk(guard):
-        if isinstance(n, ast.Subscript) and isinstance(n.value, ast.Name) and n.value.id in (args_name, types_name):
-            uses.append(n)
-            if isinstance(n.slice, ast.Name):
-                cursors.add(n.slice.id)
+        if isinstance(n, ast.Subscript) and isinstance(n.value, ast.Name) and n.value.id == args_name and isinstance(n.slice, ast.Name):
+            cursors.add(n.slice.id)
+    for cur in sorted(cursors):
+        for n in f.body_nodes():
+            k = None
+            if isinstance(n, (ast.For, ast.comprehension)) and n is not loop and any(isinstance(x, ast.Name) and x.id == cur for x in ast.walk(n.target)):
+                k = 'loop-target'
+            elif isinstance(n, ast.With) and any(it.optional_vars is not None and any(isinstance(x, ast.Name) and x.id == cur for x in ast.walk(it.optional_vars)) for it in n.items):
+                k = 'with'
+            elif isinstance(n, ast.NamedExpr) and n.target.id == cur:
+                k = 'walrus'
+            if k:
+                ctx.violation('C09.1', 'cursor:def:%s:%s' % (k, norm(n).split('\n')[0][:60]), f.loc(n),
+                              'the argument cursor `%s` is also (re)bound by `%s`: every argument after this point is read from the wrong slot of the closure'
+                              % (cur, norm(n).split('\n')[0][:80]))
+        ctx.check(True, 'C09.1', 'cursor:no-name-capture:%s' % cur, site, 'no inner loop / with / walrus rebinds the argument cursor')
+
+
+def run(ctx):
+    repo = ctx.repo
+    ctx.decided = ['C09.1 cursor integrity (the k-th decoded argument is read from slot k, for signatures of up to %d characters)' % (3 if ctx.tier == 'thorough' else 2),
+                   'C09.2 code table agreement', 'C09.3 kind table and value sources agree with log mode', 'C09.4 direction and struct-field roles',
+                   'C09.5 time unit (see C16.1)']
+    ctx.undecided = ["what GDB's expression evaluator returns for the fixed-point formula (only the formula text is compared)", 'the true element type of an array (libwayland does not record it; int is assumed, consistently)']
+    ctx.assumptions = ['nothing of GDB mode can be executed in this sandbox; all facts about libwayland are frozen tables']
+    f = repo.func('extract.extract_message')
+    site = f.loc()
+    try:
+        _ast_rules(ctx, repo, f)
+    except _Shape as e_:
+        ctx.check(True, 'C09.2', 'statement-level-rules:not-applicable', site, 'extract_message is not in the standard statement shape (%s): decided by the path-level rules only' % e_)
+    keys = None
+    for g_, n in scope_nodes(repo, f):
+        if isinstance(n, ast.Compare) and len(n.ops) == 1 and isinstance(n.ops[0], (ast.In, ast.NotIn)) and isinstance(n.comparators[0], ast.Name):
+            k_ = _table_keys(repo, g_.module, n.comparators[0].id)
+            if k_ and k_ & CODES:
+                keys = k_
+                ctx.check(k_ == CODES, 'C09.2', 'type_codes:set', site, 'the type-code table is exactly libwayland\'s {i,u,f,s,o,n,a,h}', 'the type-code table is %s' % sorted(k_))
+
+    # ---- C09.1 cursor: the k-th decoded argument comes from slot k of the argument array and of the type array -----------------------------
+    R_SIG = r"_fast_access\(_fast_access\(\w+, 'wl_closure\.message'\), 'wl_message\.signature'\)\.string\(\)"
+    R_ARGS = r"_fast_access\(\w+, 'wl_closure\.args'\)"
+    R_TYPES = r"_fast_access\(_fast_access\(\w+, 'wl_closure\.message'\), 'wl_message\.types'\)"
+
+    def canon2(t):
+        # enumerate(): <elemK of enumerate(X)>[0] is K, [1] is <elemK of X>
+        while True:
+            m = re.search(r'<elem(\d+) of enumerate\(', t)
+            if not m:
+                break
+            depth, j = 1, m.end()
+            while j < len(t) and depth:
+                depth += {'(': 1, ')': -1}.get(t[j], 0)
+                j += 1
+            inner = t[m.end():j - 1]
+            rest = t[j:]
+            if not rest.startswith('>'):
+                break
+            rest = rest[1:]
+            if rest.startswith('[0]'):
+                t = t[:m.start()] + m.group(1) + rest[3:]
+            elif rest.startswith('[1]'):
+                t = t[:m.start()] + '<elem%s of %s>' % (m.group(1), inner) + rest[3:]
             else:
-                cursors.add(norm(n.slice))
-    ctx.floor('C09.1', len(uses), 4, 'subscripts of the closure argument / type arrays')
-    ctx.check(len(cursors) == 1 and all(re.match(r'^\w+$', c) for c in cursors), 'C09.1', 'cursor:single-unmodified', site,
-              'the argument array and the type array are indexed by one plain cursor variable', 'indexed by %s' % sorted(cursors))
-    cur = sorted(cursors)[0] if cursors else 'i'
-    stores = []
-    for n in f.body_nodes():
-        tgt = None
-        if isinstance(n, ast.Assign):
-            for t in n.targets:
-                for x in ast.walk(t):
-                    if isinstance(x, ast.Name) and x.id == cur:
-                        stores.append((n, 'assign'))
-        elif isinstance(n, ast.AugAssign) and isinstance(n.target, ast.Name) and n.target.id == cur:
-            stores.append((n, 'aug'))
-        elif isinstance(n, (ast.For, ast.comprehension)):
-            for x in ast.walk(n.target):
-                if isinstance(x, ast.Name) and x.id == cur:
-                    stores.append((n, 'loop-target'))
-        elif isinstance(n, ast.With):
-            for it in n.items:
-                if it.optional_vars is not None and any(isinstance(x, ast.Name) and x.id == cur for x in ast.walk(it.optional_vars)):
-                    stores.append((n, 'with'))
-        elif isinstance(n, ast.NamedExpr) and n.target.id == cur:
-            stores.append((n, 'walrus'))
-    inits = [n for n, k in stores if k == 'assign' and n in f.node.body and isinstance(n.value, ast.Constant) and n.value.value == 0
-             and f.node.body.index(n) < f.node.body.index(loop)]
-    incs = [n for n, k in stores if k == 'aug' and isinstance(n.op, ast.Add) and isinstance(n.value, ast.Constant) and n.value.value == 1]
-    for n, k in stores:
-        good = n in inits or n in incs
-        ctx.check(good, 'C09.1', 'cursor:def:%s:%s' % (k, norm(n).split('\n')[0][:60]), f.loc(n),
-                  'definition of the argument cursor is its initialisation to 0 or its += 1',
-                  'the argument cursor `%s` is also (re)bound by `%s`: every argument after this point is read from the wrong slot of the closure'
-                  % (cur, norm(n).split('\n')[0][:80]))
-    ctx.check(len(inits) == 1 and len(incs) == 1, 'C09.1', 'cursor:one-init-one-increment', site, 'the cursor has one initialisation and one increment', '%d initialisations, %d increments' % (len(inits), len(incs)))
-    if incs:
-        inc = incs[0]
-        ctx.check(guard.body and guard.body[-1] is inc, 'C09.1', 'cursor:increment-closes-block', f.loc(inc),
-                  'the increment is the last statement of the type-code block: it runs once per argument on every non-raising path and never for digits/?',
-                  'the increment is not the unconditional last statement of the type-code block')
-    jumps = [x for s_ in guard.body for x in ast.walk(s_) if isinstance(x, (ast.Continue, ast.Return)) or
-             (isinstance(x, ast.Break) and not any(isinstance(a, (ast.For, ast.While)) and a is not loop and x in ast.walk(a) for s2 in guard.body for a in ast.walk(s2)))]
-    ctx.check(not jumps, 'C09.1', 'cursor:no-jump-past-increment', f.loc(jumps[0]) if jumps else site,
-              'no continue/return/break inside the type-code block can skip the cursor increment',
-              'a `%s` inside the type-code block skips the cursor increment: every later argument is read from the wrong slot' % (norm(jumps[0]) if jumps else ''))
-    # the union member read is the code itself
-    vals = [n for n in guard.body if isinstance(n, ast.Assign) and isinstance(n.value, ast.Subscript) and norm(n.value) == '%s[%s][%s]' % (args_name, cur, cvar)]
-    ctx.check(len(vals) == 1 and guard.body[0] is vals[0], 'C09.2', 'union-member:is-code', f.loc(guard), 'the union member read is the one named by the code character: args[cursor][code]',
-              'the argument value is not read as %s[%s][%s] first' % (args_name, cur, cvar))
-    vname = vals[0].targets[0].id if vals else 'value'
+                t = t[:m.start()] + '<ELEM%s of enumerate(%s)>' % (m.group(1), inner) + rest
+        t = re.sub(r'<elem(\d+) of ' + R_SIG + '>', r'C\1_', t)
+        t = re.sub(R_ARGS, 'ARGS_', t)
+        t = re.sub(R_TYPES, 'TYPES_', t)
+        t = re.sub(r'\[(\d+(?: \+ \d+)+)\]', lambda m_: '[%d]' % sum(int(x) for x in m_.group(1).split(' + ')), t)
+        return t
+    depth = 3 if ctx.tier == 'thorough' else 2
+    paths2 = paths_of(repo, f, unroll=depth)
+    n_seq = 0
+    slot_problem = None
+    undecided_idx = None
+    for p in paths2:
+        if p.truncated or not p.outcome or p.outcome[0] != 'return':
+            continue
+        m_ = re.search(r'tuple\((\w+)\)\)$', p.outcome_text())
+        recv = m_.group(1) if m_ else 'args'
+        apps = [e for e in p.events if e.kind == 'call' and e.ftext == recv + '.append' and e.args]
+        # iterations of the signature loop whose character is a type code (by the decisions taken) must each append exactly one argument
+        iters = {}
+        for a, v in p.decisions:
+            t = canon2(a.text)
+            mm = re.match(r'^C(\d+)_ in \w+$', t)
+            if mm:
+                iters[int(mm.group(1))] = v
+        if apps:
+            n_seq += 1
+        for j, e in enumerate(apps):
+            t = canon2(norm(e.args[0]))
+            idx = re.findall(r'(?:ARGS_|TYPES_)\[([^\[\]]*)\]', t)
+            it = e.loops[0][1] if e.loops else None
+            for ix in idx:
+                if ix == 'len(%s)' % recv:
+                    ix = str(j)     # the number of arguments appended so far
+                if not re.match(r'^\d+$', ix):
+                    if '<elem' in ix or '<ELEM' in ix:
+                        slot_problem = slot_problem or ('argument %d is read from slot `%s`: the cursor depends on something other than the number of arguments decoded so far' % (j, ix[:80]), p)
+                    else:
+                        undecided_idx = undecided_idx or ix
+                elif int(ix) != j:
+                    slot_problem = slot_problem or ('argument %d of the message is read from slot %s of the closure (signature characters %s)' % (
+                        j, ix, ', '.join('#%d %s' % (k, 'is a type code' if v else 'is NOT a type code (digit / ?)') for k, v in sorted(iters.items())) or 'all type codes'), p)
+            mem = re.findall(r'ARGS_\[[^\[\]]*\]\[(C\d+_|\'\w\')\]', t)
+            for mb in mem:
+                if mb.startswith('C') and it is not None and mb != 'C%d_' % it:
+                    slot_problem = slot_problem or ('argument %d is read through the union member named by signature character %s, but it is decoded for character #%d' % (j, mb, it), p)
+        n_codes = sum(1 for v in iters.values() if v)
+        if iters and len(apps) != n_codes and not any(e.kind == 'raise' for e in p.events):
+            slot_problem = slot_problem or ('%d signature character(s) are type codes but %d argument(s) are reported' % (n_codes, len(apps)), p)
+    if undecided_idx and not slot_problem:
+        raise AnalysisError('C09.1: cannot evaluate the slot index `%s` of the closure argument array' % undecided_idx[:80])
+    ctx.check(slot_problem is None, 'C09.1', 'cursor:slot-of-kth-argument', site,
+              'on every path through up to %d signature characters the k-th decoded argument is read from slot k (value and declared type), through the union member of its own code; digits and ? consume no slot' % depth,
+              '%s; path %s' % (slot_problem[0], slot_problem[1].describe()[:200]) if slot_problem else '')
+    ctx.floor('C09.1', n_seq, 30, 'returning paths of extract_message that decode arguments (up to %d characters)' % depth)
+    # the loop runs over the closure message's signature
+    sig_iter = [e for p in paths2[:50] for e in p.events if e.kind == 'loop-iter' and e.loops and len(e.loops) == 1]
+    ctx.check(any(re.search(R_SIG, norm(e.value)) for e in sig_iter if e.value is not None), 'C09.4', 'role:signature', site, 'the loop runs over the closure message\'s signature string')
 
     # ---- C09.3 kind table and value sources (path-based: helpers, conditional expressions and keyword arguments are looked through) --------
     paths = paths_of(repo, f, unroll=1)
@@ -200,6 +250,7 @@ def run(ctx):
     nio = f.params()[3] if len(f.params()) > 3 else 'new_id_is_actually_an_object'
 
     def canon(t):
+        t = re.sub(r'\[len\(\w+\)\]', '[0]', t)      # one iteration: nothing has been appended yet
         t = re.sub(r"<elem0 of _fast_access\(_fast_access\(\w+, 'wl_closure\.message'\), 'wl_message\.signature'\)\.string\(\)>", 'C_', t)
         t = re.sub(R_ARGS + r"\[0\]\[C_\]", 'V_', t)
         t = re.sub(R_ARGS + r"\[0\]\['o'\]", 'VO_', t)
@@ -371,23 +422,24 @@ def run(ctx):
                       problems.get(k, ''))
     # ---- C09.4 roles --------------------------------------------------------------------------------------------------
     msg_init = repo.func('message.Message.__init__')
-    rets = [n for n in f.body_nodes() if isinstance(n, ast.Return)]
-    ctx.floor('C09.4', len(rets), 1, 'return of extract_message')
-    env = {}
-    for n in f.node.body:
-        if isinstance(n, ast.Assign) and isinstance(n.targets[0], ast.Name):
-            env[n.targets[0].id] = norm(n.value)
-    for r in rets:
-        v = r.value
+    from ..sim import _canon_params
+    cps_ = _canon_params(f) or f.params()
+    nret = 0
+    for p in ret_paths:
+        v = p.outcome[1]
+        nret += 1
         ok = isinstance(v, ast.Call) and norm(v.func).endswith('Message')
         if ok:
             got = {k: norm(arg_by_name(v, msg_init, k)) for k in ('abs_time', 'obj', 'sent', 'name', 'args')}
-            nm = env.get(got['name'], got['name'])
-            ok = got['obj'] == f.params()[1] and got['sent'] == f.params()[2] and got['args'] == 'tuple(args)' and "'wl_message.name'" in nm and nm.endswith('.string()')
-        ctx.check(ok, 'C09.4', 'message:fields', f.loc(r), 'the message carries the given object and direction, the closure message\'s name and the decoded arguments in order',
-                  'extract_message returns %s' % norm(v)[:160])
-    ctx.check("'wl_closure.message'" in env.get('closure_message', '') and 'closure_message' in env.get(loop.iter.id if isinstance(loop.iter, ast.Name) else '', '') , 'C09.4', 'role:closure-message', site,
-              'name, signature and types are fields of closure->message')
+            ok = got['obj'] == cps_[1] and got['sent'] == cps_[2] and re.match(r'^tuple\(\w+\)$', got['args']) is not None \
+                and re.match(r"^_fast_access\(_fast_access\(%s, 'wl_closure\.message'\), 'wl_message\.name'\)\.string\(\)$" % re.escape(cps_[0]), got['name']) is not None \
+                and got['abs_time'] == 'time_now()'
+        ctx.check(ok, 'C09.4', 'message:fields', site, 'the message carries the given object and direction, the name of closure->message, the decoded arguments in order, and the current time',
+                  'extract_message returns %s' % norm(v)[:200])
+    ctx.floor('C09.4', nret, 1, 'returning paths of extract_message')
+    sigs = {norm(e.value) for p in paths2[:80] for e in p.events if e.kind == 'loop-iter' and e.value is not None and e.loops and len(e.loops) == 1}
+    ctx.check(any(re.search(r"_fast_access\(_fast_access\(%s, 'wl_closure\.message'\), 'wl_message\.signature'\)\.string\(\)" % re.escape(cps_[0]), t) for t in sigs), 'C09.4', 'role:closure-message', site,
+              'name, signature and types are fields of closure->message', 'the signature loop runs over %s' % sorted(sigs)[:2])
     for q, sending, objtype in (('extract.received_message', 'False', True), ('extract.sent_message', 'True', False)):
         g = repo.func(q)
         gps = paths_of(repo, g, unroll=1)
